@@ -516,7 +516,7 @@ func ownStepHandshake(g *c38Gen, s int, plugin string, form int) (before, after 
 	}
 	before = []core.Sexp{ownOp("greet", s), ownOp("resp", s), ownOp("pkt", s, core.Hex(ownHandshake(g, form, plugin, pad)))}
 	if form == 1 || form == 3 {
-		before = append(before, ownOp("pkt", s, core.Hex(g.bytesN(c38Pick(g, []int{20, 20, 20, 32, 0, 5})))))
+		before = append(before, ownOp("pkt", s, core.Hex(ownBlob(g, c38Pick(g, []int{20, 20, 20, 32, 0, 5})))))
 	}
 	after = []core.Sexp{ownOp("check", s)}
 	return
@@ -551,6 +551,17 @@ func ownNoise(g *c38Gen, first int, plugin string, n int) []core.Sexp {
 	return ops
 }
 
+// ownBlob is n random bytes (an auth response) that cannot be read as a
+// COM_STMT_PREPARE with a text outside the modelled alphabet when a session in the
+// command phase receives it (the model answers such a prepare with "unmodelled").
+func ownBlob(g *c38Gen, n int) []byte {
+	b := g.bytesN(n)
+	if len(b) > 0 && b[0] == mysql.ComStmtPrepare {
+		b[0] = mysql.ComStmtClose
+	}
+	return b
+}
+
 func genC38Own(g *core.Gen) {
 	cg := &c38Gen{r: g.Rand}
 	plugins := []string{"", "", mysql.MysqlNativePassword, mysql.CachingSHA2Password}
@@ -573,7 +584,7 @@ func genC38Own(g *core.Gen) {
 		ops = append(ops, ownOp("pkt", 1, core.Hex(ownHandshake(cg, form, plugin, 0))))
 		ops = append(ops, ownNoise(cg, 2, plugin, cg.intn(4))...)
 		if form == 1 || form == 3 {
-			ops = append(ops, ownOp("pkt", 1, core.Hex(cg.bytesN(20))))
+			ops = append(ops, ownOp("pkt", 1, core.Hex(ownBlob(cg, 20))))
 		}
 		ops = append(ops, ownOp("run", 1), ownOp("pkt", 1, core.Hex(ownSelect(cg, mysql.ComQuery, 30))))
 		g.Emit(ownSexp(plugin, ops), "own", "own-handshake-whole")
@@ -666,7 +677,7 @@ func genC38Own(g *core.Gen) {
 					ops = append(ops, ownOp("pkt", s, core.Hex(p)))
 				}
 				if form == 1 || form == 3 {
-					ops = append(ops, ownOp("pkt", s, core.Hex(cg.bytesN(c38Pick(cg, []int{20, 20, 32, 0})))))
+					ops = append(ops, ownOp("pkt", s, core.Hex(ownBlob(cg, c38Pick(cg, []int{20, 20, 32, 0})))))
 				}
 				phase[s] = 3
 			case 3:
